@@ -584,10 +584,21 @@ type StdioWrite struct {
 }
 
 // RunStdioScript performs the writes (one goroutine per stream, so that the streams interleave).
+// Scripts started one after the other write each stream in the order they were started: a
+// script's writer for a stream waits for the previous script's writer of the same stream.
 func RunStdioScript(ws []StdioWrite) {
 	for _, st := range []string{"out", "err"} {
 		st := st
+		stdioMu.Lock()
+		prev := stdioPrev[st]
+		done := make(chan struct{})
+		stdioPrev[st] = done
+		stdioMu.Unlock()
 		go func() {
+			defer close(done)
+			if prev != nil {
+				<-prev
+			}
 			for _, w := range ws {
 				if w.Stream != st {
 					continue
@@ -604,6 +615,11 @@ func RunStdioScript(ws []StdioWrite) {
 		}()
 	}
 }
+
+var (
+	stdioMu   sync.Mutex
+	stdioPrev = map[string]chan struct{}{}
+)
 
 const (
 	CookieKey   = "VERIF_PLUGIN_COOKIE"
